@@ -1485,6 +1485,74 @@ def stream_special(ctx):
     return []
 
 
+def _edited_task(t):
+    """One process, one path, successive versions of the buffer (each through a NEW Script, immediately after the
+    other): every Signature / Name returned for version k must be faithful to the text of version k."""
+    import jedi
+    out = []
+    for step, (code, probes) in enumerate(t['versions']):
+        s = jedi.Script(code, path=t['path'])
+        lines = code.split('\n')
+        for (m, ln, col) in probes:
+            try:
+                res = getattr(s, m)(ln, col)
+            except Exception as e:
+                continue                      # C01's subject
+            for r in res:
+                try:
+                    mp = r.module_path
+                    if mp is None or str(mp) != t['path'] or r.line is None:
+                        continue
+                    l, c, name = r.line, r.column, r.name
+                    text = lines[l - 1][c:c + len(name)] if 1 <= l <= len(lines) else None
+                    lc = r.get_line_code()
+                    want_lc = (lines[l - 1] + ('\n' if l < len(lines) else '')) if 1 <= l <= len(lines) else None
+                    if text != name or lc != want_lc:
+                        out.append(dict(step=step, method=m, at=(ln, col), name=name, line=l, column=c,
+                                        text_at_position=text, line_code=lc, line_of_current_text=want_lc))
+                except Exception as e:
+                    out.append(dict(step=step, method=m, at=(ln, col), error=repr(e)[:200]))
+    return out
+
+
+def stream_edited(ctx):
+    """A definition that MOVES between versions of a buffer with a path while the call line keeps its text and
+    its bracket position (what the time-limited signature cache is keyed on)."""
+    rng = ctx.rng
+    tasks = []
+    for k in range(ctx.n(16, 80)):
+        fname = rng.choice(['target', 'compute', 'area'])
+        params = rng.choice(['a', 'a, b', 'width, height=2'])
+        pad = ['' for _ in range(rng.randint(1, 4))]
+        filler = ['other_%d = %d' % (i, i) for i in range(rng.randint(1, 3))]
+        call = '%s(' % fname
+        d = ['def %s(%s):' % (fname, params), '    return 1']
+        v1 = d + ['', call]
+        v2 = pad + filler + d + [''] * (len(v1) - 1 - len(pad) - len(filler) - len(d)) + [call]
+        if len(v2) != len(v1):
+            # keep the call on the same line: put the moved definition into the lines available, else extend v1
+            n = max(len(v1), len(pad) + len(filler) + len(d) + 1)
+            v1 = d + [''] * (n - len(d) - 1) + [call]
+            v2 = pad + filler + d + [''] * (n - len(pad) - len(filler) - len(d) - 1) + [call]
+        v3 = [''] + ['def %s(%s):' % (fname, params + ', extra'), '    return 2'] + [''] * (len(v1) - 4) + [call]
+        vs = []
+        for v in (v1, v2, v3):
+            code = '\n'.join(v)
+            vs.append((code, [('get_signatures', len(v), len(call)), ('goto', len(v), 1), ('infer', len(v), 1)]))
+        tasks.append(dict(path=os.path.join(ctx.tmp, 'edited_%d.py' % k), versions=vs))
+    res = common.pmap(_edited_task, tasks, chunksize=2)
+    for t, bad in zip(tasks, res):
+        for step in range(len(t['versions'])):
+            ctx.count('edited', (t['versions'][step][0], step), nontrivial=step > 0)
+        for b in bad[:3]:
+            ctx.deviation(dict(stream='edited', cls='position-not-faithful-to-the-present-text', method=b.get('method')),
+                          dict(path_reused=True, versions=[v[0] for v in t['versions'][:b['step'] + 1]], observed=b),
+                          'after the buffer was edited (same path) %s reports %r at %r where the present text has %r' % (
+                              b.get('method'), b.get('name'), (b.get('line'), b.get('column')), b.get('text_at_position')))
+    ctx.stat('edited_sessions', len(tasks))
+    return []
+
+
 # ---------------------------------------------------------------------------------------
 
 def run(ctx):
@@ -1505,7 +1573,7 @@ def run(ctx):
         'CPython tokenize/ast are the oracle for identifier tokens and binding tokens on syntactically valid sources; attribute targets count as binding, global/nonlocal declarations do not (language reference 4.2.1)',
         'exceptions raised by the query methods themselves are skipped here (C01); exceptions of position accessors on returned objects are reported']
     pend = []
-    for f in (stream_split, stream_special, stream_corpus_windows, stream_corpus_names, stream_generated, stream_api):
+    for f in (stream_split, stream_special, stream_corpus_windows, stream_corpus_names, stream_generated, stream_api, stream_edited):
         t = time.time()
         pend += f(ctx) or []
         ctx.stat('wall_' + f.__name__, round(time.time() - t, 1))
